@@ -221,6 +221,15 @@ std::string zone_fingerprint(const cctz::time_zone& tz, const std::string& bytes
     h = hash_str(run_query(tz, q), h);
     q.k = Q_PREV; q.a = ts[i] + 1; h = hash_str(run_query(tz, q), h);
   }
+  if (!ts.empty()) {   // civil times before the first stored transition, and the round trip through them
+    for (int64_t back : {86400LL, 86400LL * 365 * 30, 86400LL * 365 * 130, 86400LL * 365 * 1000}) {
+      Civil c = civil_from_unix(ts[0] - back);
+      Query q; q.k = Q_LOOKUP_CS; q.a = c.y; q.b = pack_civil(c.m, c.d, c.hh, c.mm, c.ss);
+      h = hash_str(run_query(tz, q), h);
+      q.k = Q_CONV_CS; h = hash_str(run_query(tz, q), h);
+      q.k = Q_LOOKUP_TP; q.a = ts[0] - back; q.b = 0; h = hash_str(run_query(tz, q), h);
+    }
+  }
   { Query q; q.k = Q_FORMAT; q.a = last + 86400 * 200; q.fmt = 0; h = hash_str(run_query(tz, q), h);
     q.k = Q_PARSE; q.fmt = 1; q.s = "2011-03-13 02:30:00"; h = hash_str(run_query(tz, q), h); }
   h = hash_str(tz.description(), h);
